@@ -688,7 +688,11 @@ def check_bodies(ctx, s1, s2, separated, stream, s3=None):
             a0, a1 = float(np.sum(r0["areas"])), float(np.sum(r["areas"]))
             f0 = float(np.sum(np.linalg.norm(np.asarray(r0["forces"], dtype=float).reshape(-1, 3), axis=1)))
             dw = float(np.max(np.abs(np.array(r0["w12"]) - np.array(r["w12"])))) if r0["w12"] is not None else 0.0
-            if r0["inter"] != r["inter"] or abs(a0 - a1) > 1e-6 * max(a0, a1) + 1e-12 or dw > 1e-6 * f0 * (
+            # tolerances: the 5 % of the force magnitude that property C16 grants to repeated calls (single polygons
+            # appear, vanish or lose a vertex with the last bits of the frame the bodies happen to be expressed in:
+            # findings F-C15-vertex-drop / -coincident-lines); a stale relative pose changes the result wholesale
+            w0n = float(np.linalg.norm(np.array(r0["w12"], dtype=float)[:3])) if r0["w12"] is not None else 0.0
+            if r0["inter"] != r["inter"] or abs(a0 - a1) > 0.02 * max(a0, a1) + 1e-12 or dw > 0.05 * max(w0n, 1e-3 * f0) * (
                     1.0 + body_radius(s1) + body_radius(s2)) + 1e-12:
                 ctx.fail(fn + ":moved-in-place-differs-from-fresh-bodies", args,
                          {"inter": r["inter"], "n_polygons": npoly, "area": a1, "w12": r["w12"]},
